@@ -48,3 +48,15 @@ pub open spec fn idle(pre: Simulation, post: Simulation, bound: u64) -> bool {
     &&& exists|n: int| peek_rel(q_of(pre), q_of(post), bound, n)
     &&& (q_of(post).len() == 0 || q_of(post)[0].time > bound)
 }
+
+// C18 for a stepping call that may pass through several times: every NEW time is synchronised exactly once and the
+// times passed to synchronize increase strictly (a jump to the time the simulation already has repeats its sync)
+pub open spec fn strictly_increasing(s: Seq<u64>) -> bool {
+    forall|i: int, j: int| 0 <= i < j < s.len() ==> #[trigger] s[i] < #[trigger] s[j]
+}
+pub open spec fn sync_trace_ok(pre: Simulation, post: Simulation, target: u64) -> bool {
+    exists|app: Seq<u64>| #![trigger strictly_increasing(app)]
+        post.clock.syncs() == pre.clock.syncs() + app && strictly_increasing(app)
+        && (target > pre.time.val() ==> forall|i: int| 0 <= i < app.len() ==> #[trigger] app[i] > pre.time.val())
+        && (forall|i: int| 0 <= i < app.len() ==> #[trigger] app[i] <= target)
+}
